@@ -66,6 +66,7 @@ def make_cfg(rng, prop, tier):
             # persistent: the unit and stream OBJECTS live through the run; networks are rebuilt from them after
             # re-wiring (two units of equal shape exchange all their connections) and after refused assignments
             'persistent': rng.random() < 0.4,
+            'sections': rng.random() < 0.4,
             'regions': list(tier.get('regions', [])),
         }
     raise ValueError(prop)
@@ -911,7 +912,48 @@ class OrderWorld(BaseWorld):
                     'junk_at': r.randint(0, 3)}
         perm = list(range(n))
         rngs.sched.shuffle(perm)
-        return {'op': 'network', 'perm': perm, 'hash_seed': rngs.fault.getrandbits(32)}
+        ev = {'op': 'network', 'perm': perm, 'hash_seed': rngs.fault.getrandbits(32)}
+        if n >= 3 and self.cfg.get('sections') and rngs.sched.random() < 0.35:
+            # a SECTION of the plant: a connected subset of the units is handed to Network.from_units
+            sub = self._gen_section(rngs.args)
+            if sub:
+                rngs.args.shuffle(sub)
+                ev['perm'] = sub
+                ev['section'] = True
+        return ev
+
+    def _gen_section(self, r):
+        n = len(self.spec['units'])
+        nbr = {u: set() for u in range(n)}
+        for (su, sp, du, dp) in self.spec['edges']:
+            nbr[su].add(du)
+            nbr[du].add(su)
+        for _ in range(20):
+            size = r.randint(2, n - 1)
+            start = r.randrange(n)
+            G = {start}
+            frontier = sorted(nbr[start] - G)
+            while len(G) < size and frontier:
+                v = r.choice(frontier)
+                G.add(v)
+                frontier = sorted(set().union(*(nbr[g] for g in G)) - G)
+            if len(G) >= 2 and self._section_ok(sorted(G)):
+                return sorted(G)
+        return None
+
+    def _section_ok(self, G):
+        """the same two generator preconditions as for whole flowsheets, on the induced sub-flowsheet"""
+        units = self.spec['units']
+        loc = {g: i for i, g in enumerate(G)}
+        sub_units = [units[g] for g in G]
+        sub_edges = [[loc[e[0]], e[1], loc[e[2]], e[3]] for e in self.spec['edges'] if e[0] in loc and e[2] in loc]
+        # only sections that are acyclic by themselves: with loops inside a section the unchanged tree orders units
+        # against the material flow outside any loop of the section (seen in soak, e.g. 8 units, section
+        # {1..7} of a plant whose other loops close through unit 0) - sections are beyond C19's stated quantifier,
+        # so that is recorded here as an observation and not generated
+        if self._scc(list(range(len(G))), sub_edges)[1]:
+            return False
+        return (self._has_feed(sub_units, sub_edges, len(G)) and self._all_reach_product(sub_units, sub_edges, len(G)))
 
     def _gen_graph(self, r, back_edges=None):
         n = self.cfg['n_units']
@@ -1058,8 +1100,20 @@ class OrderWorld(BaseWorld):
         if ev['op'] != 'network' or self.spec is None:
             return 'skip:pre'
         n = len(self.spec['units'])
-        if sorted(ev['perm']) != list(range(n)):
+        given = list(ev['perm'])
+        if ev.get('section'):
+            if (len(set(given)) != len(given) or len(given) < 2 or any(not (0 <= g < n) for g in given)
+                    or self.cfg.get('persistent') or not self._section_ok(sorted(given))):
+                return 'skip:pre'
+            self.stats['probe:section_of_a_larger_flowsheet'] += 1
+        elif sorted(given) != list(range(n)):
             return 'skip:pre'
+        G = set(given)
+        edges_G = [e for e in self.spec['edges'] if e[0] in G and e[2] in G]
+        if ev.get('section'):
+            scc_of, cyclic = self._scc(sorted(G), edges_G)
+        else:
+            scc_of, cyclic = self.scc_of, self.cyclic
         self.stats['op:network'] += 1
         self.stats['mechanism_ops'] += 1
         self.built = getattr(self, 'built', 0) + 1
@@ -1071,7 +1125,7 @@ class OrderWorld(BaseWorld):
             units, streams = self.objs
         else:
             units, streams = self._build(ev['hash_seed'])
-        ordered = [units[i] for i in ev['perm']]
+        ordered = [units[i] for i in given]
         with warnings.catch_warnings(record=True) as wlist:
             warnings.simplefilter('always')
             try:
@@ -1102,15 +1156,17 @@ class OrderWorld(BaseWorld):
                   'recycles': sorted(self._sname(s, streams) for s in recycles)}
         if -1 in order:
             self.fail('foreign-unit', 'path contains a unit that was not given', detail)
-        if set(order) != set(range(n)):
-            self.fail('incomplete', f'path lacks units {sorted(set(range(n)) - set(order))}', detail)
+        if set(order) - G:
+            self.fail('foreign-unit', f'path contains units {sorted(set(order) - G)} that were not given', detail)
+        if set(order) != G:
+            self.fail('incomplete', f'path lacks units {sorted(G - set(order))}', detail)
         pos = {}
         for p, u in enumerate(order):
             pos.setdefault(u, p)
-        if not self.cyclic:
-            if len(order) != n:
+        if not cyclic:
+            if len(order) != len(G):
                 self.fail('duplicate', 'a unit appears more than once in an acyclic flowsheet', detail)
-            for (su, sp, du, dp) in self.spec['edges']:
+            for (su, sp, du, dp) in edges_G:
                 if pos[su] >= pos[du]:
                     self.fail('order', f'unit {du} is placed before its feeder {su}', detail)
             if recycles:
@@ -1119,8 +1175,8 @@ class OrderWorld(BaseWorld):
             self.stats['probe:cyclic_network_built'] += 1
             if not recycles:
                 self.fail('no-recycle', 'no recycle stream reported for a cyclic flowsheet', detail)
-            for (su, sp, du, dp) in self.spec['edges']:
-                if pos[su] >= pos[du] and self.scc_of[su] != self.scc_of[du]:
+            for (su, sp, du, dp) in edges_G:
+                if pos[su] >= pos[du] and scc_of[su] != scc_of[du]:
                     self.fail('backward-outside-loop',
                               f'stream {su}->{du} runs against the path order but the two units '
                               f'share no recycle loop', detail)
@@ -1225,8 +1281,16 @@ class OrderWorld(BaseWorld):
     def _analyse(self):
         spec = self.spec
         n = len(spec['units'])
-        succ = {u: [] for u in range(n)}
-        for (su, sp, du, dp) in spec['edges']:
+        self.scc_of, self.cyclic = self._scc(list(range(n)), spec['edges'])
+        self.scc_sets = {}
+        for v, k in self.scc_of.items():
+            self.scc_sets.setdefault(k, []).append(v)
+        self.scc_sets = list(self.scc_sets.values())
+
+    @staticmethod
+    def _scc(nodes, edges):
+        succ = {u: [] for u in nodes}
+        for (su, sp, du, dp) in edges:
             succ[su].append(du)
         # Tarjan
         index = {}
@@ -1256,16 +1320,15 @@ class OrderWorld(BaseWorld):
                     if w == v:
                         break
                 sccs.append(comp)
-        for v in range(n):
+        for v in nodes:
             if v not in index:
                 strong(v)
-        self.scc_sets = sccs
-        self.scc_of = {}
+        scc_of = {}
         for k, comp in enumerate(sccs):
             for v in comp:
-                self.scc_of[v] = k
-        self.cyclic = any(len(c) > 1 for c in sccs) or any(
-            su == du for (su, sp, du, dp) in spec['edges'])
+                scc_of[v] = k
+        cyclic = any(len(c) > 1 for c in sccs) or any(su == du for (su, sp, du, dp) in edges)
+        return scc_of, cyclic
 
     def abstract_state(self):
         if self.spec is None:
